@@ -20,6 +20,7 @@ type sliceCtx struct {
 	// whole is simply in `seen`
 	paramPaths map[*ssa.Parameter][][]int
 	paramWhole map[*ssa.Parameter]bool
+	cbDepth    int
 }
 
 func backSlice(v ssa.Value) map[ssa.Value]bool {
@@ -55,6 +56,16 @@ func (sc *sliceCtx) visit(v ssa.Value, stack []*ssa.Call) {
 				sc.paramWhole = map[*ssa.Parameter]bool{}
 			}
 			sc.paramWhole[x] = true
+			// a parameter of a function literal that is handed to someone as a callback (a visitor, a predicate, the
+			// body of a loop over an iterator function): what the callback is invoked with
+			if sc.cbDepth < 3 {
+				sc.cbDepth++
+				for _, inv := range callbackInvocations(x) {
+					sc.seen[inv.call] = true
+					sc.visit(inv.arg, nil)
+				}
+				sc.cbDepth--
+			}
 		}
 		if n := len(stack); n > 0 {
 			call := stack[n-1]
@@ -96,7 +107,13 @@ func (sc *sliceCtx) visit(v ssa.Value, stack []*ssa.Call) {
 		if x.Common().IsInvoke() || x.Common().StaticCallee() == nil {
 			sc.visit(x.Common().Value, stack) // interface receiver, or the function value of a dynamic call
 		}
-		if cal := x.Common().StaticCallee(); cal != nil && inModule(cal) && len(stack) < 4 && cal.Blocks != nil {
+		cal := x.Common().StaticCallee()
+		if cal == nil && !x.Common().IsInvoke() {
+			// a call of a function value: a local literal, or a function-valued parameter bound by the call on the
+			// stack (a predicate / selector handed to a helper)
+			cal = funcValueThroughStack(x.Common().Value, stack, 0)
+		}
+		if cal != nil && inModule(cal) && len(stack) < 4 && cal.Blocks != nil {
 			for _, b := range cal.Blocks {
 				for _, ins := range b.Instrs {
 					if r, ok := ins.(*ssa.Return); ok {
@@ -451,4 +468,179 @@ func collectFieldStores(root ssa.Value, prefix string, out map[string][]ssa.Valu
 			out[prefix] = append(out[prefix], u.Val)
 		}
 	}
+}
+
+type cbInvocation struct {
+	call *ssa.Call // the invocation of the callback (a dynamic call through a parameter)
+	arg  ssa.Value // what it passes for the parameter in question
+}
+
+// callbackInvocations: p is a parameter of a function literal F; F's value is passed as an argument to a call
+// whose callee (a module function, or the closure returned by a module function - an iterator) invokes that
+// parameter: the invocations and the arguments they pass for p.
+func callbackInvocations(p *ssa.Parameter) []cbInvocation {
+	F := p.Parent()
+	if F == nil || F.Parent() == nil {
+		return nil
+	}
+	idx := -1
+	for i, q := range F.Params {
+		if q == p {
+			idx = i
+		}
+	}
+	if idx < 0 {
+		return nil
+	}
+	var out []cbInvocation
+	for _, b := range F.Parent().Blocks {
+		for _, ins := range b.Instrs {
+			var fv ssa.Value
+			if mc, ok := ins.(*ssa.MakeClosure); ok && mc.Fn == ssa.Value(F) {
+				fv = mc
+			}
+			if fv == nil {
+				continue
+			}
+			for _, r := range *fv.Referrers() {
+				c, ok := r.(*ssa.Call)
+				if !ok {
+					continue
+				}
+				ai := -1
+				for i, a := range c.Call.Args {
+					if a == fv {
+						ai = i
+					}
+				}
+				if ai < 0 {
+					continue
+				}
+				for _, R := range receiversOfCall(c) {
+					if ai >= len(R.Params) {
+						continue
+					}
+					q := R.Params[ai]
+					fns := append([]*ssa.Function{R}, R.AnonFuncs...)
+					for _, g := range fns {
+						for _, gb := range g.Blocks {
+							for _, gi := range gb.Instrs {
+								d, ok := gi.(*ssa.Call)
+								if !ok || d.Call.IsInvoke() {
+									continue
+								}
+								target := d.Call.Value
+								// through a captured variable of a nested literal
+								if ld, ok := target.(*ssa.UnOp); ok && ld.Op == token.MUL {
+									if fvv, ok := ld.X.(*ssa.FreeVar); ok {
+										if cell := freeVarBinding(fvv); cell != nil {
+											for _, cr := range *cell.Referrers() {
+												if st, ok := cr.(*ssa.Store); ok && st.Addr == cell && st.Val == ssa.Value(q) {
+													target = q
+												}
+											}
+										}
+									}
+								}
+								if target == ssa.Value(q) && idx < len(d.Call.Args) {
+									out = append(out, cbInvocation{d, d.Call.Args[idx]})
+								}
+							}
+						}
+					}
+				}
+			}
+		}
+	}
+	return out
+}
+
+// receiversOfCall: the module function(s) a call enters: its static callee, or - for a call of a function value
+// that was returned by a module function (an iterator constructor) - the returned literal.
+func receiversOfCall(c *ssa.Call) []*ssa.Function {
+	if cal := c.Call.StaticCallee(); cal != nil {
+		if cal.Blocks != nil && inModule(cal) {
+			return []*ssa.Function{cal}
+		}
+		return nil
+	}
+	if c.Call.IsInvoke() {
+		return nil
+	}
+	var out []*ssa.Function
+	var resolve func(v ssa.Value, depth int)
+	resolve = func(v ssa.Value, depth int) {
+		if depth > 3 {
+			return
+		}
+		switch x := v.(type) {
+		case *ssa.MakeClosure:
+			if fn, ok := x.Fn.(*ssa.Function); ok && fn.Blocks != nil {
+				out = append(out, fn)
+			}
+		case *ssa.Function:
+			if x.Blocks != nil && inModule(x) {
+				out = append(out, x)
+			}
+		case *ssa.Phi:
+			for _, e := range x.Edges {
+				resolve(e, depth+1)
+			}
+		case *ssa.ChangeType:
+			resolve(x.X, depth+1)
+		case *ssa.Parameter:
+			// the iterator / function value was handed in: what the call sites of this function pass
+			if curProg != nil {
+				g := x.Parent()
+				for i, q := range g.Params {
+					if q != x {
+						continue
+					}
+					for _, site := range (cgView{&Ctx{P: curProg}}).callersOf(g) {
+						if i < len(site.Common().Args) {
+							resolve(site.Common().Args[i], depth+1)
+						}
+					}
+				}
+			}
+		case *ssa.Call:
+			if h := x.Call.StaticCallee(); h != nil && h.Blocks != nil && inModule(h) {
+				for _, b := range h.Blocks {
+					for _, ins := range b.Instrs {
+						if r, ok := ins.(*ssa.Return); ok && len(r.Results) >= 1 {
+							resolve(unspillResult(r.Results[0], b), depth+1)
+						}
+					}
+				}
+			}
+		}
+	}
+	resolve(c.Call.Value, 0)
+	return out
+}
+
+// funcValueThroughStack: the function behind a function value: a function or literal, a local variable holding
+// one, or a function-valued parameter that the call on top of the stack binds to one.
+func funcValueThroughStack(v ssa.Value, stack []*ssa.Call, depth int) *ssa.Function {
+	if depth > 4 {
+		return nil
+	}
+	if fn := resolveLocalFunc(v); fn != nil {
+		return fn
+	}
+	if p, ok := v.(*ssa.Parameter); ok {
+		if n := len(stack); n > 0 {
+			call := stack[n-1]
+			cal := call.Common().StaticCallee()
+			if cal == nil {
+				cal = p.Parent()
+			}
+			for i, q := range cal.Params {
+				if q == p && i < len(call.Common().Args) {
+					return funcValueThroughStack(call.Common().Args[i], stack[:n-1], depth+1)
+				}
+			}
+		}
+	}
+	return nil
 }
